@@ -146,6 +146,7 @@ type board struct {
 	wsFail        atomic.Int64      // websocket publishes answered with an error
 	wsSeq         atomic.Int64
 	wsEvery       atomic.Int64 // every n-th publish fails (0: never)
+	wsBlock       atomic.Bool  // the websocket publisher blocks every Publish call until the release (long-burst histories)
 	noHiccups     bool         // max_tries = 0 workers: no webhook but the failing one ever fails
 	flaky         atomic.Int64 // calls of the flaky healthy webhook
 	flakyFailures atomic.Int64
@@ -203,6 +204,13 @@ type recPublisher struct {
 
 func (p *recPublisher) Publish(channel string, data []byte, opts ...centrifuge.PublishOption) (centrifuge.PublishResult, error) {
 	p.b.rec.add(delivery{Channel: chWS, Payload: append([]byte(nil), data...), Sync: insideAdd(), Extra: channel})
+	if p.b.wsBlock.Load() && !insideAdd() {
+		// a publisher that does not come back for a while (a stalled broker): every publication waits here
+		_, release := p.b.behaviour("")
+		p.b.parked.Add(1)
+		<-release
+		p.b.parked.Add(-1)
+	}
 	n := p.b.wsSeq.Add(1)
 	if every := p.b.wsEvery.Load(); every > 0 && n%every == 0 {
 		p.b.wsFail.Add(1)
@@ -428,6 +436,7 @@ type env struct {
 	// production-client mode: the webhooks are real HTTP servers, called by transports/http/client
 	urls        map[string]string // channel -> registered URL
 	servers     []*httptest.Server
+	wsBlockNext bool // the next history runs with a blocked websocket publisher
 	pairMu      sync.Mutex
 	pairHash    string
 	pairArrived int
@@ -746,6 +755,13 @@ func (e *env) runHistory(caseID string, rng *rand.Rand, hist gen.History, pFail 
 	b.beh, b.release = beh, release
 	b.mu.Unlock()
 	b.wsEvery.Store([]int64{0, 2, 3}[rng.Intn(3)])
+	b.wsBlock.Store(e.wsBlockNext)
+	if e.wsBlockNext {
+		b.wsEvery.Store(0)
+		r.Count("histories_with_a_blocked_websocket_publisher", 1)
+	}
+	e.wsBlockNext = false
+	defer b.wsBlock.Store(false)
 	if e.live != nil {
 		b.wsEvery.Store(0) // a failed publish is not delivered: no injected publish failures with the live node
 		e.live.take()
@@ -1120,7 +1136,7 @@ func clip(s string) string {
 }
 
 func body(r *ev.Run) {
-	r.Rule("histories = seeded random histories of the C01 generator (forks, orphans, late parents, duplicates, forbidden hashes, all work classes) with store failures injected at repository.Headers.AddHeaderToDatabase (and UpdateState in every 6th history) with probability {0, 0.05, 0.15} per submission; channel set on the real Notifier = 3 recording channels whose behaviours per history are 3 of {ok, error, slow, blocked until released after ingestion} in random order + real websocket channel over a recording publisher that fails every n-th publish (n in {never,2,3}) + real WebhooksService over the SQL repository with three healthy (one of them answering 500 to every third call, never twice in a row) and an always-failing webhook; a share of the histories runs with the production webhook client (transports/http/client) posting to real HTTP servers, the failing one answering 500 / dropping the connection after reading the request / answering 503 in turn; every 6th fault-free submission is made by two goroutines at once (two peers delivering the same header; the first duplicate look-up waits up to 1.5 ms for the second to arrive). evaluations = histories; distinct = distinct (behaviour assignment, history shape); non-trivial = history with a fork, orphan, duplicate or a non-stored submission.")
+	r.Rule("histories = seeded random histories of the C01 generator (forks, orphans, late parents, duplicates, forbidden hashes, all work classes) with store failures injected at repository.Headers.AddHeaderToDatabase (and UpdateState in every 6th history) with probability {0, 0.05, 0.15} per submission; channel set on the real Notifier = 3 recording channels whose behaviours per history are 3 of {ok, error, slow, blocked until released after ingestion} in random order + real websocket channel over a recording publisher that fails every n-th publish (n in {never,2,3}) + real WebhooksService over the SQL repository with three healthy (one of them answering 500 to every third call, never twice in a row) and an always-failing webhook; a share of the histories runs with the production webhook client (transports/http/client) posting to real HTTP servers, the failing one answering 500 / dropping the connection after reading the request / answering 503 in turn; bursts of 300-500 headers while the websocket publisher is blocked; every 6th fault-free submission is made by two goroutines at once (two peers delivering the same header; the first duplicate look-up waits up to 1.5 ms for the second to arrive). evaluations = histories; distinct = distinct (behaviour assignment, history shape); non-trivial = history with a fork, orphan, duplicate or a non-stored submission.")
 	r.Assume("'stored' = Chains.Add returned without error", "the stored header = its headers row (immutable columns at the end of the history, header_state right after Add returned)",
 		"logical quiescence = goroutine count back at the pre-history baseline plus the deliveries parked in blocked channels (or, if some unrelated long-lived goroutine appeared, every expected delivery recorded and a stable goroutine count)",
 		"the always-failing webhook may be deactivated by the service: only 'at most one call per stored header, none otherwise' is required of it", "SQLite only; built with -race")
@@ -1137,6 +1153,7 @@ func body(r *ev.Run) {
 	r.Require("websocket_publish_failures_injected", 50)
 	r.Require("deliveries_"+chWSClient, 100)
 	r.Require("production_client_histories", 10)
+	r.Require("histories_with_a_blocked_websocket_publisher", 2)
 	r.Require("hiccups_of_a_healthy_webhook", 100)
 	if r.Workers >= 4 {
 		r.Require("environments_with_max_tries_zero", 1)
@@ -1181,6 +1198,25 @@ func body(r *ev.Run) {
 			}
 			rng, hist, pFail := histFor(caseID, r.Pick(110, 160))
 			e.runHistory(caseID, rng, hist, pFail, i%6 == 5)
+		})
+	}
+	// a burst of 300+ stored headers while the websocket publisher is blocked (released after ingestion): every event
+	// still arrives
+	for i := 0; i < r.Pick(2, 12); i++ {
+		caseID := fmt.Sprintf("burst/%d", i)
+		r.Do(caseID, func() {
+			if e == nil {
+				var err error
+				if e, err = newEnv(r, false); err != nil {
+					e = nil
+					r.Violate("harness|rig", err.Error(), caseID, nil)
+					return
+				}
+			}
+			rng := r.Rand(caseID)
+			hist := gen.Random(rng, rig.Genesis(), gen.Opts{N: 300 + rng.Intn(200), PDup: 0.02, PFork: 0.05, Classes: "MH"})
+			e.wsBlockNext = true
+			e.runHistory(caseID, rng, hist, 0, false)
 		})
 	}
 	// the same with the production webhook client (transports/http/client) calling real HTTP servers
